@@ -24,7 +24,7 @@ class C17(Check):
     assumptions = ["fix/format are exercised through the API objects the CLI commands call, raw templater"]
 
     def pinned(self, tier):
-        for i, c in enumerate(fixlib.pinned_slice(tier, ["format", "layout", "all"], 6, 40, offset=2)):
+        for i, c in enumerate(fixlib.pinned_slice(tier, ["format", "layout", "all"], 6, 30, offset=2)):
             if i % 7 == 3:
                 c["rule_configs"] = {"core": {"runaway_limit": 2}}
             yield c
@@ -37,7 +37,7 @@ class C17(Check):
         return st.tuples(base, cfg).map(lambda t: dict(t[0], rule_configs=t[1]) if t[1] else t[0])
 
     def examples(self, tier):
-        return 45 if tier == "quick" else 2000
+        return 45 if tier == "quick" else 800
 
     def budget_s(self, tier):
         return 400.0 if tier == "quick" else 1700.0
